@@ -283,9 +283,14 @@ func genIntegration(r *hx.RNG) []string {
 
 func genRate(r *hx.RNG) []string {
 	bw := r.Range(200, 3000)
-	k := r.Range(2, 3) // bytes need k-1 .. k drains
+	k := 3 // the bytes need 2 drains: at least one full drain interval
 	n := bw*(k-1) + 1 + r.Intn(bw)
-	in := []string{"R", "S:" + hx.HexS(rxA) + ":0", fmt.Sprintf("T:%s:%d", hx.HexS("0-"), bw), "|",
+	start := "0-"
+	if r.Chance(1, 2) {
+		start = "1-" // the bandwidth is then set by a ChangeBandwidth action, not when the context is set
+		n++
+	}
+	in := []string{"R", "S:" + hx.HexS(rxA) + ":0", fmt.Sprintf("T:%s:%d", hx.HexS(start), bw), "|",
 		fmt.Sprintf("n:%d", n), fmt.Sprintf("c:%d", r.Range(1, 2))}
 	return in
 }
@@ -308,7 +313,7 @@ func generate(cfg *hx.Config, emit func(kind string, in []string)) {
 	rng := hx.NewRNG(cfg.Seed)
 	nl, nu, ni, nr, ns := 60, 500, 40, 3, 3
 	if cfg.Thorough() {
-		nl, nu, ni, nr, ns = 600, 12000, 500, 16, 16
+		nl, nu, ni, nr, ns = 600, 8000, 500, 16, 16
 	}
 	// 1. handler / listener histories (sequential: goroutines are counted)
 	for k := 0; k < nl; k++ {
